@@ -127,6 +127,20 @@ def run_history(ctx, clsname, presence, rng, nsteps, out, hid):
         n = len(pre["ax"][a])
         if n == 0 or -1 in pre["ax"][a] or not pre["ok"]["cells"]:
             return
+        if step > 0 and "taxa" in axes and rng.random() < 0.15 and getattr(cur, "taxa_grp", None) is not None and pre["ax"]["taxa"]:
+            # the group labels of the taxa are RE-ASSIGNED through the taxa_grp property (a revised family assignment): from here on the
+            # history is validated against the revised label table -- whatever grouping the matrix reported before no longer counts
+            import copy as _cp
+            newtab = _cp.deepcopy(lm.TAB)
+            newtab["taxa"]["grp"] = [[5, 7, 9, 5, 7, 9, 5, 7], [1, 1, 4, 4, 2, 2, 8, 8], [3, 2, 1, 0, -1, 3, 2, 1]][rng.randrange(3)]
+            lm.TAB = newtab
+            try:
+                cur.taxa_grp = lm.label_array("taxa", "grp", pre["ax"]["taxa"])
+            except Exception as e:
+                ctx.violation("%s.taxa_grp:exception" % clsname, "%s: %s" % (type(e).__name__, e), {"ids": pre["ax"]["taxa"]})
+                return
+            a = "taxa"; op = "group" if rng.random() < 0.7 else op
+            pre = lm.project(cur, kind); n = len(pre["ax"][a])
         if clsname == "DensePhasedGenotypeMatrix" and rng.random() < 0.2:
             genotype_step(ctx, cur, pre, kind, presence, rng, out, hid, step)
             continue
